@@ -110,6 +110,20 @@ Proof.
   - pose proof (Permutation_length Hp) as Hl. destruct (filter has dirs') as [|e [|e2 r']]; cbn in Hl; try discriminate. reflexivity.
 Qed.
 
+(* every use of the register collection is a membership test (of the lower-cased name among the lower-cased names) *)
+Theorem reg_mem_order_independent (n : list Z) regs regs' :
+  Permutation regs regs' -> Subst.reg_mem n regs = Subst.reg_mem n regs'.
+Proof.
+  intros H. unfold Subst.reg_mem, Subst.mem.
+  assert (Hp : Permutation (map (map Subst.lower) regs) (map (map Subst.lower) regs')) by (apply Permutation_map; exact H).
+  set (m := map Subst.lower n). set (l := map (map Subst.lower) regs) in *. set (l' := map (map Subst.lower) regs') in *.
+  destruct (existsb (Subst.str_eqb m) l) eqn:E1; destruct (existsb (Subst.str_eqb m) l') eqn:E2; try reflexivity.
+  - apply existsb_exists in E1 as [x [Hx Hb]]. assert (In x l') by (eapply Permutation_in; eauto).
+    assert (existsb (Subst.str_eqb m) l' = true) by (apply existsb_exists; eauto). congruence.
+  - apply existsb_exists in E2 as [x [Hx Hb]]. assert (In x l) by (eapply Permutation_in; [symmetry|]; eauto).
+    assert (existsb (Subst.str_eqb m) l = true) by (apply existsb_exists; eauto). congruence.
+Qed.
+
 (* every use of the register collection is a membership test *)
 Theorem mem_order_independent (n : list Z) regs regs' :
   Permutation regs regs' -> Subst.mem n regs = Subst.mem n regs'.
